@@ -110,9 +110,10 @@ structure Flags where
   hasFiles : Bool := false
   deriving Repr, BEq
 
-/-- `should_print_entire_buffer` (main.rs:814). -/
-def shouldPrintEntireBuffer (fl : Flags) (cmds : List Cmd) (noFields : Bool) : Bool :=
-  (!hasPatternSearch cmds && (!fl.editInplace || !fl.hasFiles)) && noFields
+/-- `should_print_entire_buffer` (main.rs): no field-extracting scope and no field extracted.
+(Before fix 7a73b90 it was also false whenever `-i` had files — see `Legacy.lean`.) -/
+def shouldPrintEntireBuffer (_fl : Flags) (cmds : List Cmd) (noFields : Bool) : Bool :=
+  !hasPatternSearch cmds && noFields
 
 /-- `execute()` (main.rs:757): run the commands on a fresh editor, collect the records.
 `buf` reads the final buffer out of the editor state. -/
